@@ -36,3 +36,8 @@ Proof.
   intros [-> | ->]; rewrite compatible_spec; f_equal; unfold Compat, compl; destruct legacy; cbn;
     rewrite ?andb_false_r; reflexivity.
 Qed.
+
+(** label-insensitive convention: only the symbol kinds count, labels and order digits are ignored *)
+Theorem compatible_new_ignores_labels lk lt lt' rk rt rt' :
+  compatible (lk :: lt) (rk :: rt) false = compatible (lk :: lt') (rk :: rt') false.
+Proof. rewrite !compatible_spec. reflexivity. Qed.
